@@ -9,7 +9,10 @@ from . import common
 from . import pool
 from .c17 import model_sanitise
 
-RULE = ("random compositions (depth 1-4) of the public operations over named / unnamed vectors and tables with repeated, unsanitary, reserved and "
+from . import recompute
+
+RULE = ("[plus the shared recompute-after-history monitor: this property's operations evaluated on long-lived objects between in-place writes / renames must equal the same operations on fresh objects rebuilt from the current contents] "
+	"random compositions (depth 1-4) of the public operations over named / unnamed vectors and tables with repeated, unsanitary, reserved and "
 	"missing names: after every operation the result's .name / .column_names() is compared with the rule table applied to the operands' actual "
 	"names - vector-with-vector arithmetic and comparisons give unnamed results; copy, slice, mask, sort_by, in-place writes and promotion keep "
 	"the name; table-with-scalar keeps every column name; table-with-table keeps the left name iff the right name is absent or equal; Table([..]), "
@@ -26,14 +29,16 @@ ASSUMPTIONS = [
 EXHAUSTIVE = {"flag": False, "scope": "sampled compositions; the operation table is complete"}
 ANCHOR_FUNCS = ["vector:Vector._elementwise_operation", "vector:Vector.copy", "table:_resolve_binary_name", "table:Table._table_elementwise_operation",
 	"table:Table.aggregate", "table:Table.window", "table:Table.sort_by", "table:Table.__rshift__"]
-REQUIRED_STRATA = {"vector-op": 400, "table-op": 400, "agg-names": 300}
+REQUIRED_STRATA = {"recompute": 200, "vector-op": 400, "table-op": 400, "agg-names": 300}
 
 NAMES = [None, None, "a", "b", "a", "Total $", "sum", "x y", "A", "k", "v_sum", "mean", "2x", "é", "count", ""]
 FN_SUFFIX = ("sum", "mean", "min", "max", "count", "stdev")
 
 
 def vec(rng, n, name):
-	vals = [rng.choice([1, 2, 3, 4]) for _ in range(n)]
+	vals = [rng.choice([1, 2, 3, 4, None]) if rng.random() < 0.5 else rng.choice([1, 2, 3]) for _ in range(n)]
+	if all(x is None for x in vals):
+		vals[0] = 1
 	return Vector(vals, name=name) if name is not None else Vector(vals)
 
 
@@ -272,7 +277,11 @@ def san_alts(name, fn):
 	s = model_sanitise(name)
 	if s is None or s == ("unnamed",):
 		return None
-	return {f"{s}_{fn}", f"{s}__{fn}"}
+	from .c17 import base_dir
+	_, public = base_dir()
+	if s in {p.lower() for p in public}:
+		return {f"{s}_{fn}", f"{s}__{fn}"}     # a reserved name gets a trailing underscore first: either spelling is accepted
+	return {f"{s}_{fn}"}
 
 
 def run_agg_names(chk, spec):
@@ -307,6 +316,7 @@ def run_agg_names(chk, spec):
 
 
 RUNNERS = {"chain": run_chain, "agg_names": run_agg_names}
+RUNNERS["recompute"] = recompute.runner("C18")
 
 
 def gen_agg_names_spec(rng):
@@ -361,6 +371,7 @@ def gen_agg_names_spec(rng):
 
 
 def run(chk):
+	recompute.add_cases(chk, "C18")
 	rng = chk.rng
 	for _ in range(900 if chk.quick() else 6000):
 		chk.case("chain", {"seed": rng.randrange(10**9), "n": rng.choice([1, 2, 3, 4]), "depth": rng.choice([1, 2, 3, 4])}, "chain")
